@@ -223,6 +223,11 @@ def check_case(run: common.Run, tlabel: str, slabel: str, kind: str, style: str,
     call = s[1].format(A=srcs[0] if srcs else "", B=srcs[1] if len(srcs) > 1 else "", C=srcs[2] if len(srcs) > 2 else "")
     src = t[1].format(CALL=call)
     binds = {names[i]: values.to_cel(k, v) for i, (k, v) in enumerate(args)} if bound else {}
+    if bound:
+        # CEL keeps functions and variables in separate name spaces: variables named like the two host functions are bound as well (every other case)
+        if (len(repr(args)) + len(tlabel)) % 2 == 0:
+            binds = dict(binds, hf=ct.IntType(7), hg=ct.StringType("not the function"))
+            run.event("variable-named-like-the-function")
     v = model_value(behaviour, args)
     exp = t[2](v)
     want_args = tuple(outcome.value_outcome(values.to_cel(k, x)) for k, x in args)
